@@ -114,6 +114,65 @@ def _apply(it, ci, attrs, arr):
     return r
 
 
+def _canon(node, ren):
+    """canonical form of an arithmetic expression modulo commutativity of + and * only (no reassociation, no
+    distribution: what IEEE arithmetic guarantees), with names renamed through `ren`"""
+    import ast
+
+    if isinstance(node, ast.Name):
+        return ("n", ren.get(node.id, node.id))
+    if isinstance(node, ast.Constant):
+        return ("c", repr(node.value))
+    if isinstance(node, ast.UnaryOp):
+        return ("u", type(node.op).__name__, _canon(node.operand, ren))
+    if isinstance(node, ast.BinOp):
+        l, r = _canon(node.left, ren), _canon(node.right, ren)
+        if isinstance(node.op, (ast.Add, ast.Mult)):
+            l, r = sorted((l, r), key=repr)
+        return ("b", type(node.op).__name__, l, r)
+    raise AnalysisError(f"mean expression outside the arithmetic grammar: {ast.unparse(node)}")
+
+
+def _exact_mean_form(ctx, classes):
+    """'exactly invariant' in floating point: the entry at p is computed from (v[p], v[g p]) and the entry at g p from
+    (v[g p], v[p]) by the same expression, so the two are bit-identical iff the expression is unchanged by swapping its
+    two operands up to the commutativity of + and * — (a + b) / 2 is, a + (b - a) / 2 is not."""
+    import ast
+
+    n = 0
+    for ci in sorted(classes, key=lambda c: c.name):
+        fn = ci.methods["__call__"].node
+        defs = {}
+        for st in ast.walk(fn):
+            if isinstance(st, ast.Assign) and len(st.targets) == 1 and isinstance(st.targets[0], ast.Name):
+                defs.setdefault(st.targets[0].id, []).append(st.value)
+        stored = []
+        for st in ast.walk(fn):
+            if isinstance(st, ast.Assign) and len(st.targets) == 1 and isinstance(st.targets[0], ast.Subscript):
+                stored.append(st.value)
+        if not stored:
+            raise AnalysisError(f"{ci.name}.__call__: no per-key store of the result found")
+        for val in stored:
+            e = val
+            # unwrap layout-only calls (expand_dims / reshape / astype of the mean)
+            while isinstance(e, ast.Call) and e.args:
+                e = e.args[0]
+            hops = 0
+            while isinstance(e, ast.Name) and e.id in defs and len(defs[e.id]) == 1 and isinstance(defs[e.id][0], (ast.BinOp, ast.Name)) and hops < 4:
+                e = defs[e.id][0]
+                hops += 1
+            if not isinstance(e, ast.BinOp):
+                raise AnalysisError(f"{ci.name}.__call__: the stored value is not an arithmetic mean expression: {ast.unparse(val)}")
+            names = sorted({x.id for x in ast.walk(e) if isinstance(x, ast.Name)})
+            if len(names) != 2:
+                raise AnalysisError(f"{ci.name}.__call__: mean expression over {names} (expected the array and its image)")
+            a, b = names
+            same = _canon(e, {}) == _canon(e, {a: b, b: a})
+            n += 1
+            ctx.ob("R21.6", f"{ci.qualname}.__call__:mean-expression", same, "the symmetrised value is an expression in the array and its image that is unchanged by swapping the two up to commutativity of + and * alone, so an entry and its mirror entry are the same floating-point computation (exact invariance, not invariance up to rounding)", ast.unparse(e), "swap-symmetric, e.g. (a + b) / 2")
+    ctx.require_count("R21.6 mean expressions", n, 8)
+
+
 def run(ctx):
     ix = ctx.index
     mi = ix.module(MOD)
@@ -163,6 +222,35 @@ def run(ctx):
                 except Raised as e:
                     idem = False
                 ctx.ob("R21.4", con, idem, "idempotent; a g-symmetric input (the first output) is returned unchanged", "T(T(v))", "T(v)")
+    # several parameter arrays: each key gets its own array back (insertion order deliberately not alphabetical)
+    for ci in sorted(classes, key=lambda c: c.name):
+        cases = oracle_cases(ci.name)
+        label, attrs, shapes, gf = cases[0]
+        shape = shapes[0]
+        g = gf(shape)
+        idxs = list(itertools.product(*[range(n) for n in shape]))
+        ins = {"rho": _atoms(shape, "r"), "eps": _atoms(shape, "e"), "alpha": _atoms(shape, "a")}
+        it = ctx.fresh_interp()
+        try:
+            res = it.call_method(Obj(ci, dict(attrs), ci.name), "__call__", dict(ins))
+        except Raised as e:
+            ctx.ob("R21.5", f"{ci.qualname}.__call__[three arrays]", False, f"raises on a dictionary of three arrays: {e}", str(e), "three arrays")
+            continue
+        ok = isinstance(res, dict) and list(res) == list(ins)
+        bad = []
+        if ok:
+            for key, v in ins.items():
+                r = res[key]
+                if not (isinstance(r, NdArr) and r.shape == tuple(shape)):
+                    bad.append((key, "shape"))
+                    continue
+                for i in idxs:
+                    w = (to_rat(v.data[_flat(shape, i)]) + to_rat(v.data[_flat(shape, g(shape, i))])) / 2
+                    if not to_rat(r.data[_flat(shape, i)]).equals(w):
+                        bad.append((key, str(i), to_rat(r.data[_flat(shape, i)]).fmt()[:80]))
+                        break
+        ctx.ob("R21.5", f"{ci.qualname}.__call__[three arrays]", ok and not bad, "with several parameter arrays every key gets the symmetrisation of its own array back (keys 'rho', 'eps', 'alpha' in that insertion order)", bad[:3] if ok else (list(res) if isinstance(res, dict) else res), "out[key] == (v[key] + g.v[key]) / 2")
+    _exact_mean_form(ctx, classes)
     ctx.note(f"{len(classes)} classes, {n_cases} (class, option, shape) cases, all entries free symbols")
     ctx.require_count("C21 cases", n_cases, 60)
     ctx.trusted_base += ["sa/ndarr.py model of squeeze/expand_dims/[::-1]/.T/jnp.flip/jnp.transpose on concrete-shape arrays", "uniformity of those index maps in the axis sizes"]
